@@ -80,8 +80,36 @@ def lexpr : Nat → List String → Option (LExpr × List String)
     some (.right x o e, r1)
   | _, _ => none
 
+/-- an expression tree in prefix form: `A <operand>` | `B <op> <e> <e>` -/
+def gexpr : Nat → List String → Option (GenReg.GExpr × List String)
+  | 0, _ => none
+  | _ + 1, "A" :: a :: r => (ra a).map fun a => (.atom a, r)
+  | f + 1, "B" :: o :: r => do
+    let o ← bop o
+    let (l, r1) ← gexpr f r
+    let (rr, r2) ← gexpr f r1
+    some (.bin l o rr, r2)
+  | _, _ => none
+
+/-- shapes the port leaves outside by design (reported as `outside`, not as a rejection): a node with two constant
+    operands (folded by the generator) and `X | 0` / `0 | X` (no code at all) -/
+def gexprFolds : GenReg.GExpr → Bool
+  | .atom _ => false
+  | .bin l o r =>
+    gexprFolds l || gexprFolds r ||
+      (match l, r with
+       | .atom a, .atom b =>
+         (a.isConst && b.isConst) ||
+           (o == .bor && ((a.isReg && b == .of (.const 0)) || (b.isReg && a == .of (.const 0))))
+       | _, _ => false)
+
 def flat (t : String) : Option RStmt :=
   match t.splitOn ":" with
+  | "expr" :: v :: rest => do
+    -- expr:<lv>:<prefix form, `A:<operand>` | `B:<op>:<e>:<e>`>
+    let v ← lv v
+    let (e, r) ← gexpr (rest.length + 1) rest
+    if r.isEmpty then some (RStmt.expr v e) else none
   | "lin" :: v :: rest => do
     let v ← lv v
     let (e, r) ← lexpr (rest.length + 1) rest
@@ -129,6 +157,8 @@ def stmt : Nat → List String → Option (SStmt × List String)
   | _, [] => none
   | f + 1, t :: r =>
     if t == "skip" then some (.skip, r)
+    else if t.startsWith "winc:" then some (GenStruct.incW (t.drop 5).toString, r)
+    else if t.startsWith "wdec:" then some (GenStruct.decW (t.drop 5).toString, r)
     else if t == "brk" then some (.brk, r)
     else if t == "cont" then some (.cont, r)
     else if t == "ifbrk" then do
@@ -495,6 +525,16 @@ def handle (st : DState) (line : String) : DState × String :=
         (st, "ok " ++ " ".intercalate ((ps.flatMap GenFlat.genText).map fun p => p.1.name ++ ":" ++ hexStr p.2))
       else (st, "outside")
     | none => (st, "badreq")
+  -- genexpr <lv> <prefix tokens> : the expression-tree generator port on `lv = e`; `reject` when the generator gives up
+  | "genexpr" :: v :: toks =>
+    (match GSParse.lv v, GSParse.gexpr (toks.length + 1) toks with
+     | some v, some (e, []) =>
+       (match GenReg.genE "" GenFlat.text {} e with
+        | some (c, .acc, _) =>
+          (st, "ok " ++ " ".intercalate ((c ++ GenReg.storeA "" GenFlat.text v).map fun p => p.1.name ++ ":" ++ hexStr p.2))
+        | some _ => (st, "outside")
+        | none => (st, if GSParse.gexprFolds e then "outside" else "reject"))
+     | _, _ => (st, "badreq"))
   -- genstruct <tokens> : the stage-2 generator port on a structured program; instruction and label lines
   --   an optional first token `abs=t,u` names the arrays declared outside the zero page
   | "genstruct" :: toks0 =>
@@ -524,7 +564,7 @@ def handle (st : DState) (line : String) : DState × String :=
     let reg := fun (n : String) => BitVec.ofNat 8 (((kv.find? (·.1 == n)).bind (·.2.head?)).getD 0)
     match GSParse.program toks, fuel.toNat? with
     | some p, some f =>
-      (match GenStruct.sem L f { mem := m0, x := reg "X", y := reg "Y" } p with
+      (match GenStruct.sem L f { mem := m0, x := reg "X", y := reg "Y", sp := 0xFF } p with
        | some (_, σ) => (st, "ok " ++ " ".intercalate ((mems.map fun p => p.1 ++ "=" ++
              ",".intercalate ((List.range p.2.length).map fun i => toString (σ.mem.read (L p.1 + BitVec.ofNat 16 i)).toNat)) ++
            ["X=" ++ toString σ.x.toNat, "Y=" ++ toString σ.y.toNat]))
